@@ -789,10 +789,20 @@ class EffField(Obj):
                 return nm
         raise Gap("delta field index %s is not one of the schema's fields" % self.idx)
 
-    def m_as_map(self, I, a, n):
+    def m_as_indexed_view(self, I, a, n):
         return EffSized(self.k, self._which())
 
-    m_as_indexed_view = m_as_map
+    def m_as_map(self, I, a, n):
+        k, which = self.k, self._which()
+        if which == "modified" and hasattr(k, "mod_key"):
+            from cxxvc.interp import Pair
+
+            def entry(j):
+                d = Obj("ValueView", "child_delta")
+                d.position = j
+                return Pair(ElemRef(k.mod_key[j]), d)
+            return Vec(I.ctx, "modified", length=k.sizes["modified"], elem=entry)
+        return EffSized(k, which)
 
 
 class EffSized(Obj):
@@ -806,9 +816,12 @@ class EffSized(Obj):
         return self.k.sizes[self.which]
 
     def m_at(self, I, a, n):
+        i = I.ctx.rv(a[0])
+        if self.which == "removed_strict" and hasattr(self.k, "strict_key"):
+            I.ctx.oblige("strict-index-in-range", z3.And(i >= 0, i < self.k.sizes["removed_strict"]), kind="bounds")
+            return ElemRef(self.k.strict_key[i])
         if self.which != "removed":
             raise Gap("element access on the %s field" % self.which)
-        i = I.ctx.rv(a[0])
         I.ctx.oblige("removed-index-in-range", z3.And(i >= 0, i < self.k.sizes["removed"]), kind="bounds")
         return ElemRef(self.k.removed_key[i])
 
@@ -1051,6 +1064,184 @@ class RecordedSeedResolver(DeltaKernel):
 
 KERNELS += [DeltaHasEffectTsd, RecordedSeedResolver]
 
+
+
+
+# ------------------------------------------------------------------ apply_delta_tsd: removals, children, then the validating touch
+
+
+class TsdMutation(Obj):
+    cls = "TSDMutation"
+
+    def __init__(self, k):
+        Obj.__init__(self, name="mutation")
+        self.k = k
+
+    def _op(self, ctx):
+        g = self.k.g
+        ctx.write(Loc((g.oid, "ops_after_touch")), ctx.store[(g.oid, "ops_after_touch")] + z3.If(ctx.store[(g.oid, "touches")] > 0, 1, 0))
+
+    def m_erase(self, I, a, n):
+        ctx = I.ctx
+        e = ctx.rv(a[0])
+        if not isinstance(e, ElemRef):
+            raise Gap("erase of an untracked key")
+        self._op(ctx)
+        g = self.k.g
+        ctx.write(Loc((g.oid, "erased")), z3.Store(ctx.store[(g.oid, "erased")], e.eid, True))
+        return self.k.target_has[e.eid]
+
+    def m_at(self, I, a, n):
+        e = I.ctx.rv(a[0])
+        if not isinstance(e, ElemRef):
+            raise Gap("child of an untracked key")
+        self._op(I.ctx)
+        o = Obj("TSDataView", "child")
+        o.child_of = e.eid
+        return o
+
+    def m_touch(self, I, a, n):
+        ctx = I.ctx
+        g = self.k.g
+        ctx.write(Loc((g.oid, "touches")), ctx.store[(g.oid, "touches")] + 1)
+        return VOID
+
+
+class ApplyDeltaTsd(DeltaKernel):
+    property_ids = ("C20", "C08")
+    name = "ts_delta.cpp:apply_delta_tsd"
+    fn_name = "apply_delta_tsd"
+    filter = "apply_delta_tsd"
+    title = "TSD apply: every removed key erased, every modified child's delta applied to that child, then the tick is validated by touch"
+
+    def setup(self, I):
+        ctx = I.ctx
+        self.T = z3.Int("out_evaluation_time")
+        self.n_fields = z3.Int("delta_field_count")
+        self.sizes = {nm: z3.Int("n_" + nm) for nm in ("modified", "removed", "removed_strict")}
+        for v in self.sizes.values():
+            ctx.assume(v >= 0)
+        self.removed_key, self.strict_key, self.mod_key = (z3.Array(nm, I_, I_) for nm in ("removed_key", "strict_key", "modified_key"))
+        self.target_has = z3.Array("target_has_key", I_, B_)
+        self.field_index = {}
+        self.authored = z3.Int("tsd_authored_delta_fields")
+        ctx.assume(z3.Or(self.n_fields == self.authored, self.n_fields == self.authored - 1))
+        g = Obj("ghost", "dg")
+        self.g = g
+        ctx.store[(g.oid, "erased")] = z3.K(I_, z3.BoolVal(False))
+        ctx.store[(g.oid, "applied")] = z3.K(I_, z3.BoolVal(False))       # per position in the modified map
+        for nm in ("touches", "ops_after_touch", "mutations"):
+            ctx.store[(g.oid, nm)] = z3.IntVal(0)
+        ctx.store[(g.oid, "mut_t")] = z3.IntVal(-9)
+        k = self
+        out = Obj("TSOutputView", "out")
+        out.m_evaluation_time = lambda I_2, a, n: self.T
+        out.m_output = lambda I_2, a, n: Obj("TSOutput", "output")
+        dict_out = Obj("TSDOutputView", "dict_out")
+
+        def begin(I_2, a, n):
+            c = I_2.ctx
+            c.write(Loc((g.oid, "mutations")), c.store[(g.oid, "mutations")] + 1)
+            c.write(Loc((g.oid, "mut_t")), c.rv(a[0]))
+            return TsdMutation(k)
+        dict_out.m_begin_mutation = begin
+        out.m_as_dict = lambda I_2, a, n: dict_out
+        delta = Obj("ValueView", "delta")
+        delta.m_as_bundle = lambda I_2, a, n: EffBundle(self)
+        self.out = out
+        return None, {"out": out, "delta": delta}
+
+    def global_var(self, I, ref, node):
+        nm = ref.get("name", "")
+        m = {"tsd_delta_modified": "modified", "tsd_delta_removed": "removed", "tsd_delta_removed_strict": "removed_strict"}
+        if nm in m:
+            t = z3.Int(nm)
+            self.field_index[m[nm]] = t
+            return t
+        if nm == "tsd_authored_delta_fields":
+            return self.authored
+        return None
+
+    def f_delta_field_is(self, I, args, n):
+        return z3.BoolVal(True)
+
+    def ctor_handler(self, qt, node):
+        if qt.endswith("TSOutputView"):
+            def mk(I, args, n):
+                a = [I.ctx.rv(x) for x in args]
+                if len(a) == 1:
+                    return a[0]
+                if len(a) != 3:
+                    raise Gap("TSOutputView built from %d arguments" % len(a))
+                o = Obj("TSOutputView", "child_view")
+                o.child_of = getattr(a[1], "child_of", None)
+                o.at_time = a[2]
+                return o
+            return mk
+        return Kernel.ctor_handler(self, qt, node)
+
+    def f_apply_delta(self, I, args, n):
+        ctx = I.ctx
+        v, d = ctx.rv(args[0]), ctx.rv(args[1])
+        j = getattr(d, "position", None)
+        if j is None or getattr(v, "child_of", None) is None:
+            raise Gap("apply_delta on something that is not (child view, its child delta)")
+        g = self.g
+        ctx.write(Loc((g.oid, "ops_after_touch")), ctx.store[(g.oid, "ops_after_touch")] + z3.If(ctx.store[(g.oid, "touches")] > 0, 1, 0))
+        ok = z3.And(v.child_of == self.mod_key[j], v.at_time == self.T)
+        ctx.write(Loc((g.oid, "applied")), z3.Store(ctx.store[(g.oid, "applied")], j, ok))
+        return VOID
+
+    def gg(self, ctx, nm):
+        return ctx.store[(self.g.oid, nm)]
+
+    def removed_done(self, ctx, upto):
+        return z3.ForAll([qk], z3.Implies(z3.And(qk >= 0, qk < upto), self.gg(ctx, "erased")[self.removed_key[qk]]))
+
+    def applied_done(self, ctx, upto):
+        return z3.ForAll([qk], z3.Implies(z3.And(qk >= 0, qk < upto), self.gg(ctx, "applied")[qk]))
+
+    def base_inv(self, ctx):
+        return z3.And(self.gg(ctx, "touches") == 0, self.gg(ctx, "ops_after_touch") == 0, self.gg(ctx, "mutations") == 1,
+                      self.gg(ctx, "mut_t") == self.T)
+
+    def inv_removed(self, I, ctx):
+        i = ctx.rv(self.local(I, "i"))
+        yield "removed-keys-so-far-erased", z3.And(i >= 0, i <= self.sizes["removed"], self.removed_done(ctx, i), self.base_inv(ctx))
+
+    def inv_strict(self, I, ctx):
+        i = ctx.rv(self.local(I, "i"))
+        yield "all-removed-keys-erased;strict-index-in-range", z3.And(i >= 0, i <= self.sizes["removed_strict"],
+                                                                     self.removed_done(ctx, self.sizes["removed"]), self.base_inv(ctx))
+
+    def inv_modified(self, I, ctx):
+        pos = self.range_pos(I)
+        yield "children-so-far-received-their-delta", z3.And(pos >= 0, pos <= self.sizes["modified"], self.applied_done(ctx, pos),
+                                                             self.removed_done(ctx, self.sizes["removed"]), self.base_inv(ctx))
+
+    def frame(self, I, ctx):
+        return [Loc((self.g.oid, nm)) for nm in ("erased", "applied", "ops_after_touch")]
+
+    @property
+    def loops(self):
+        return {0: LoopSpec(self.inv_removed, self.frame), 1: LoopSpec(self.inv_strict, self.frame),
+                2: LoopSpec(self.inv_modified, self.frame)}
+
+    def post(self, I, ret):
+        ctx = I.ctx
+        ctx.oblige("ensures.every-removed-key-erased,every-modified-child-received-its-own-delta-at-the-cycle-time[C20 applying a "
+                   "captured delta to the pre-tick state yields the post-tick state; C08 a dictionary-shaped feedback delivers the "
+                   "stored delta]", z3.And(self.removed_done(ctx, self.sizes["removed"]), self.applied_done(ctx, self.sizes["modified"]),
+                                           self.gg(ctx, "mutations") == 1, self.gg(ctx, "mut_t") == self.T), kind="post-normal")
+        ctx.oblige("ensures.touch-last,once[C20 an empty tick still ticks (it validates a fresh dictionary); C08 an empty first write "
+                   "is delivered]", z3.And(self.gg(ctx, "touches") == 1, self.gg(ctx, "ops_after_touch") == 0), kind="post-normal")
+
+    def post_exc(self, I, exc):
+        I.ctx.oblige("raises.runtime_error-only-for-a-strict-removal-of-an-absent-key",
+                     z3.And(z3.BoolVal(exc.cls == "std::runtime_error"), self.n_fields == self.authored), kind="post-exceptional")
+
+
+KERNELS += [ApplyDeltaTsd]
 
 
 # ------------------------------------------------------------------ bounded stand-in: record -> replay as a whole
